@@ -333,18 +333,48 @@ Proof.
   exact (HQ outs Hok).
 Qed.
 
-Definition shape_ok (is : list item) (xml : list N) : Prop :=
+(** the write sequence of a program [p] that ended with a successful [finalize] of [xml] *)
+Definition gshape {A} (p : wprog A) (xml : list N) : Prop :=
   exists pre P0 data4 x,
     let pl := pages_for (len data4) * 1024 in
     let data7 := overwrite data4 0 (hdr pl (phys_of_log x) (len xml)) in
-    trace_of (crash_prog is xml) = pre ++ [(0, P0); (0, P0)] /\
+    trace_of p = pre ++ [(0, P0); (0, P0)] /\
     Forall entry_ok pre /\
     apply_writes pre = paginate data4 /\
-    final_image (crash_prog is xml) = paginate data7 /\
+    final_image p = paginate data7 /\
     len P0 = 1024 /\ (forall j, j < 1020 -> nthN j P0 = nthN j data7) /\
     drop 1020 P0 = crc_bytes (take 1020 P0) /\
     48 <= x /\ slice x (len xml) data4 = xml /\ (xml <> [] -> x + len xml <= len data4) /\
     (forall j, j < 48 -> nthN j data4 = nthN j hdr0) /\ 48 <= len data4 /\ z2440 data4.
+
+Definition shape_ok (is : list item) (xml : list N) : Prop := gshape (crash_prog is xml) xml.
+
+(** a program whose run ends in the state [finalize] leaves, started from a state behind the
+    header, has that shape *)
+Lemma gshape_of_finalize A (p : wprog A) s2 l2 xml :
+  before_finalize [] s2 l2 ->
+  fst (wrun p pw0) = fst (wrun (writer_finalize xml) s2) ->
+  gshape p xml.
+Proof.
+  intros [HR Hpos Hz Hlog Hrep Hhdr Hlen] Hp.
+  destruct (finalize_shape s2 l2 xml HR Hpos Hz Hlog Hrep)
+    as (Hok & lg6 & P0 & Hd & Hlg6 & Hpre & Hfin & HlP & HnP & HcP).
+  unfold gshape, trace_of, final_image, dev_after. rewrite pw_fresh_pw0, Hp.
+  exists (rev lg6), P0, (ls_data (ls_write l2 xml)), (ls_pos l2). cbv zeta.
+  rewrite Hd. cbn [rev]. rewrite <- app_assoc. cbn [app].
+  split; [reflexivity|]. split; [apply Forall_rev, Hlg6|]. split; [exact Hpre|].
+  split; [exact Hfin|]. split; [exact HlP|]. split; [exact HnP|]. split; [exact HcP|].
+  split; [exact Hpos|].
+  assert (Hx : forall j, j < 48 -> nthN j (ls_data (ls_write l2 xml)) = nthN j (ls_data l2)).
+  { intros j Hj. destruct xml; cbn [ls_write ls_data]; [reflexivity|].
+    rewrite nthN_overwrite. destruct (N.ltb_spec j (ls_pos l2)); [reflexivity|lia]. }
+  split; [|split; [|split; [|split]]].
+  + destruct xml as [|b r]; [reflexivity|]. cbn [ls_write ls_data]. apply slice_overwrite_same.
+  + intros Hne. destruct xml as [|b r]; [congruence|]. cbn [ls_write ls_data]. rewrite len_overwrite. lia.
+  + intros j Hj. rewrite Hx by exact Hj. apply Hhdr, Hj.
+  + destruct xml as [|b r]; cbn [ls_write ls_data]; [exact Hlen|]. rewrite len_overwrite. lia.
+  + apply z2440_ls_write; [lia|exact Hz].
+Qed.
 
 Theorem crash_trace_shape is xml :
   (snd (wrun (crash_prog is xml) pw_fresh) <> Ok tt /\ Forall entry_ok (trace_of (crash_prog is xml))) \/
@@ -352,33 +382,30 @@ Theorem crash_trace_shape is xml :
 Proof.
   destruct (items_run is) as (HR2 & Hz2 & Hlg2 & Hrep2 & Hbf). cbv zeta in *.
   destruct init_run as [Hi _].
-  unfold shape_ok, trace_of, final_image, dev_after. rewrite pw_fresh_pw0.
-  unfold crash_prog. rewrite wrun_bind.
+  assert (E : wrun (crash_prog is xml) pw0 =
+              let '(s1, r1) := wrun writer_init pw0 in
+              match r1 with
+              | Ok _ => let '(s2, r2) := wrun (items_write is) s1 in
+                        match r2 with
+                        | Ok _ => wrun (writer_finalize xml) s2
+                        | Err k => (s2, Err k) | Panic => (s2, Panic)
+                        end
+              | Err k => (s1, Err k) | Panic => (s1, Panic)
+              end).
+  { unfold crash_prog. rewrite wrun_bind. destruct (wrun writer_init pw0) as [s1 [u|k|]]; try reflexivity.
+    rewrite wrun_bind. reflexivity. }
+  unfold shape_ok, trace_of, dev_after. rewrite pw_fresh_pw0.
   destruct (wrun writer_init pw0) as [s1 r1] eqn:E1. cbn [fst snd] in *. subst r1.
-  rewrite wrun_bind.
   destruct (wrun (items_write is) s1) as [s2 r2] eqn:E2. cbn [fst snd] in *.
   set (l2 := fst (wrun_spec (items_write is) (mkLs hdr0 48))) in *.
   destruct r2 as [outs|e|].
-  - right. destruct (Hbf outs eq_refl) as [HR Hpos Hz Hlog Hrep Hhdr Hlen].
-    destruct (finalize_shape s2 l2 xml HR Hpos Hz Hlog Hrep)
-      as (Hok & lg6 & P0 & Hd & Hlg6 & Hpre & Hfin & HlP & HnP & HcP).
-    split; [exact Hok|].
-    exists (rev lg6), P0, (ls_data (ls_write l2 xml)), (ls_pos l2). cbv zeta.
-    rewrite Hd. cbn [rev]. rewrite <- app_assoc. cbn [app].
-    split; [reflexivity|]. split; [apply Forall_rev, Hlg6|]. split; [exact Hpre|].
-    split; [exact Hfin|]. split; [exact HlP|]. split; [exact HnP|]. split; [exact HcP|].
-    split; [exact Hpos|].
-    assert (Hx : forall j, j < 48 -> nthN j (ls_data (ls_write l2 xml)) = nthN j (ls_data l2)).
-    { intros j Hj. destruct xml; cbn [ls_write ls_data]; [reflexivity|].
-      rewrite nthN_overwrite. destruct (N.ltb_spec j (ls_pos l2)); [reflexivity|lia]. }
-    split; [|split; [|split; [|split]]].
-    + destruct xml as [|b r]; [reflexivity|]. cbn [ls_write ls_data]. apply slice_overwrite_same.
-    + intros Hne. destruct xml as [|b r]; [congruence|]. cbn [ls_write ls_data]. rewrite len_overwrite. lia.
-    + intros j Hj. rewrite Hx by exact Hj. apply Hhdr, Hj.
-    + destruct xml as [|b r]; cbn [ls_write ls_data]; [exact Hlen|]. rewrite len_overwrite. lia.
-    + apply z2440_ls_write; [lia|exact Hz].
-  - left. split; [discriminate|]. apply Forall_rev. eapply drop_log_ok; eassumption.
-  - left. split; [discriminate|]. apply Forall_rev. eapply drop_log_ok; eassumption.
+  - right. pose proof (Hbf outs eq_refl) as BF.
+    destruct BF as [HR Hpos Hz Hlog Hrep Hhdr Hlen].
+    destruct (finalize_shape s2 l2 xml HR Hpos Hz Hlog Hrep) as (Hok & _).
+    split; [rewrite E; exact Hok|].
+    apply (gshape_of_finalize _ _ s2 l2 xml); [constructor; assumption|]. rewrite E. reflexivity.
+  - left. rewrite E. cbn [fst snd]. split; [discriminate|]. apply Forall_rev. eapply drop_log_ok; eassumption.
+  - left. rewrite E. cbn [fst snd]. split; [discriminate|]. apply Forall_rev. eapply drop_log_ok; eassumption.
 Qed.
 
 (** the writer dropped without [finalize]: every write carries zeros in the XML fields *)
